@@ -255,6 +255,11 @@ pub fn cli(args: &[String]) -> i32 {
             }
         }
     }
+    if c.processes >= 50 && c.syscalls == 0 {
+        // not one read or write was intercepted in the whole batch: the shim is not in the
+        // children (static binary, changed symbol names, LD_PRELOAD ignored)
+        harness_error("the LD_PRELOAD shim logged no read/write call in the whole batch: fault injection is not active");
+    }
     samples.sort_by_key(|s| s["run"].as_u64());
     samples.truncate(3);
     enum_space.sort_by_key(|s| s["run"].as_u64());
